@@ -21,6 +21,7 @@ import logging
 import os
 import selectors
 import socket
+import sys
 import time
 import warnings
 from asyncio import events
@@ -145,6 +146,7 @@ class VLoop(asyncio.SelectorEventLoop):
         self.connect_log = []
         self.refuse = lambda n, host, port: False  # decided by the scenario
         self.udp = {}  # port -> transport
+        self.udp_protocols = {}  # port -> protocol object asyncio delivers that port's datagrams to
         self.udp_log = []
         self.exc_log = []
         self.set_exception_handler(self._on_exc)
@@ -185,6 +187,7 @@ class VLoop(asyncio.SelectorEventLoop):
         transport, protocol = await super().create_datagram_endpoint(protocol_factory, local_addr, remote_addr, **kw)
         if local_addr:
             self.udp[local_addr[1]] = transport
+            self.udp_protocols[local_addr[1]] = protocol
         return transport, protocol
 
     # -- stepping ----------------------------------------------------------
@@ -259,6 +262,8 @@ class VLoop(asyncio.SelectorEventLoop):
 
     def finish(self):
         """Tear the world down (sockets, loop)."""
+        if self.is_closed():
+            return
         try:
             for t in list(self.udp.values()):
                 try:
@@ -448,3 +453,50 @@ class Clock:
 def set_zone(name: str):
     os.environ["TZ"] = name
     time.tzset()
+
+
+CLOCK_READERS = {"time", "time_ns", "localtime", "gmtime", "strftime", "ctime", "asctime", "today", "now", "utcnow"}
+
+
+class SteppingClock(Clock):
+    """A pinned clock that moves by `delta` seconds just before the k-th clock read the library makes.
+
+    A "read" is a call, from a frame of the aioswitcher package, of one of the C functions that can consult the wall
+    clock (time.time/localtime/strftime/..., date.today, datetime.now/utcnow).  Calls that were handed an explicit time
+    are counted too - a jump before one of them is the same execution as a jump before the next real read, so the
+    enumeration `jump_at in range(reads + 1)` covers every placement of the jump between two reads.
+    `jump_at=None` never moves (used to count the reads of one call)."""
+
+    def __init__(self, epoch, jump_at=None, delta=1.0):
+        super().__init__(epoch)
+        self.jump_at = jump_at
+        self.delta = delta
+        self.reads = 0
+        self.jumped = False
+        self._old = None
+
+    def _hook(self, frame, event, arg):
+        if event != "c_call" or getattr(arg, "__name__", None) not in CLOCK_READERS:
+            return
+        if os.sep + "aioswitcher" + os.sep not in frame.f_code.co_filename:
+            return
+        if self.jump_at is not None and self.reads == self.jump_at and not self.jumped:
+            self.jumped = True
+            self.shift(self.delta)
+        self.reads += 1
+
+    def arm(self, jump_at):
+        """Count afresh; the clock moves before read number `jump_at` of what follows."""
+        self.reads = 0
+        self.jumped = False
+        self.jump_at = jump_at
+
+    def __enter__(self):
+        super().__enter__()
+        self._old = sys.getprofile()
+        sys.setprofile(self._hook)
+        return self
+
+    def __exit__(self, *a):
+        sys.setprofile(self._old)
+        return super().__exit__(*a)
